@@ -16,6 +16,9 @@ TXPACKET = "codec::packet::TxPacket"
 CTXMSG = "client::message::ContextMessage"
 
 
+CRATE_LAYERS = ("client", "codec", "core", "io")
+
+
 class Ctx:
     def __init__(self, facts_path, tier="quick", release_facts_path=None, info=None, facts=None):
         self.facts = facts if facts is not None else Facts(facts_path)
@@ -69,7 +72,26 @@ class Ctx:
 
     @staticmethod
     def layer(path):
+        # `<std::collections::VecDeque<(K, V)> as client::utils::KeyedQueue<K, V>>::take_by_key`: a method the crate adds to
+        # a foreign type through a trait of its own belongs to the layer of that trait
+        if path.startswith("<") and path.lstrip("<").split("::")[0] not in CRATE_LAYERS:
+            m = re.search(r" as ([a-z_]+)::", path)
+            if m and m.group(1) in CRATE_LAYERS:
+                return m.group(1)
         return path.lstrip("<").split("::")[0]
+
+    def layer_of(self, path):
+        """Layer a function belongs to: for a trait method implemented on a type of another layer
+        (`<codec::packet::RxPacket as client::handle::ExpectAck>::expect_puback`) the layer of the file it is written in."""
+        if path.startswith("<"):
+            f = self.facts.fn(path)
+            if f is None and path.endswith("}"):
+                f = self.facts.fn(re.sub(r"(::\{closure#\d+\})+$", "", path))
+            if f is not None and f.get("file", "").startswith("src/"):
+                seg = f["file"].split("/")
+                if len(seg) >= 3 and seg[1] in CRATE_LAYERS:
+                    return seg[1]
+        return self.layer(path)
 
     def flat_with(self, body, kept, tag, normalise=True):
         """Flattened body under a caller-supplied policy kept(path) -> bool (True: leave the call in place).
@@ -94,13 +116,13 @@ class Ctx:
             return None
         key = (body.path, keep, inline)
         if key not in self._flat:
-            lay = self.layer(body.path)
+            lay = self.layer_of(body.path)
             kre = re.compile(keep) if keep else None
             ire = re.compile(inline) if inline else None
 
             def kept(p, lay=lay, kre=kre, ire=ire):
                 q = p.replace("::{closure#0}", "") if p.endswith("::{closure#0}") else p
-                if self.layer(p) != lay:
+                if self.layer_of(p) != lay:
                     return True
                 if ire is not None and ire.search(q):
                     return False
